@@ -451,23 +451,29 @@ def check(item, case, rec):
     rec.label(f"n={min(n // 50 * 50, 300)}+")
     rec.label("parallel" if par else "sequential")
     single = items[0] if len(items) == 1 else None
+    # every second single-item case hands the state over in a foreign container (a copy of the item's own one), the way
+    # a job passes the global field to its items
+    foreign = single is not None and not settle and not item.startswith("FormItem") and case["lseed"] % 2 == 1
+    fq = fc.copy() if foreign else fc
+    if foreign:
+        rec.label("state-in-foreign-container")
 
     def vec(x):
-        setx(fc, x)
+        setx(fq, x)
         if single is not None:
-            r = single.assemble.vector(fc, parallel=par)
+            r = single.assemble.vector(fq, parallel=par)
             if settle:
-                r = single.assemble.vector(fc, parallel=par)
+                r = single.assemble.vector(fq, parallel=par)
             return dense(r, n).copy()
         return np.array(fun_items(items, fc, parallel=par), dtype=float).copy()
 
     def mat():
-        setx(fc, x0)
+        setx(fq, x0)
         if single is not None:
             if settle:
-                single.assemble.vector(fc, parallel=par)
-                single.assemble.vector(fc, parallel=par)
-            K = single.assemble.matrix(fc, parallel=par)
+                single.assemble.vector(fq, parallel=par)
+                single.assemble.vector(fq, parallel=par)
+            K = single.assemble.matrix(fq, parallel=par)
             return dense(K, n).copy()
         fun_items(items, fc, parallel=par)
         return np.asarray(jac_items(items, fc, parallel=par).toarray(), float).copy()
